@@ -169,6 +169,13 @@ func (ix *Index) indexReadyBlobs(ctx context.Context) {
 // ix.mu must be held.
 func (ix *Index) noteBlobIndexedLocked(br blob.Ref) {
 	for _, needer := range ix.neededBy[br] {
+		// This dependency is satisfied: also forget its persisted row. Otherwise,
+		// if needer still waits for another blob, the stale row would be loaded
+		// again by initNeededMapsLocked after a restart, as a need that nothing
+		// will ever satisfy (br is already indexed and won't be noted again).
+		if err := ix.s.Delete(keyMissing.Key(needer, br)); err != nil {
+			log.Printf("Error deleting key %s: %v", keyMissing.Key(needer, br), err)
+		}
 		newNeeds := blobsFilteringOut(ix.needs[needer], br)
 		if len(newNeeds) == 0 {
 			ix.readyReindex[needer] = true
